@@ -1,13 +1,13 @@
-\* race hunt (expected to FAIL NoActorBlock): a GetHashByNoRsp that was queued ahead of the SyncStop of a finder
-\* that timed out.  checks/c17.py replays the counterexample on the real syncer.
+\* schedule finder (the trap invariant is EXPECTED to be violated; the counterexample is the schedule): a GetHashByNoRsp that was queued ahead of the SyncStop of a finder that timed out.
+\* checks/c17.py replays it on the real syncer: the actor must not block, the session must end, a new one succeed.
 SPECIFICATION Spec
 CONSTANTS
   MaxL = 1
-  MaxR = 4
+  MaxR = 3
   NPeers = 2
   ChunkSize = 2
   HashReq = 3
-  MaxTasks = 2
+  MaxTasks = 1
   MaxPendingConn = 2
   MaxFail = 2
   Skip = 2
@@ -18,8 +18,6 @@ CONSTANTS
   MaxStops = 0
   MaxExpire = 2
   IgnoredStarts = FALSE
-  RaceFinder = TRUE
-  RaceBuffer = FALSE
-VIEW view
-INVARIANTS NoActorBlock
+  PreRepair = FALSE
+INVARIANTS NoActorBlock TrapLateFinderRsp
 CHECK_DEADLOCK FALSE
